@@ -1117,9 +1117,59 @@ open EG EG.ColorSrcPrelude
 """
 
 
+def color_classes(repo):
+    """[{name, kind, raw}] of the colour types: the first two arguments of every `rgb_color!` / `gray_color!` invocation and
+    `BinaryColor` with the `Raw` type of its `impl PixelColor`. (tr_color.parse_colors reads the same invocations for the
+    generated table and checks them against its independent census; it is not called here because it also refuses, by
+    regular expressions, rewrites of the very bodies this part translates.)"""
+    out = []
+    for f, macro, kind in (("rgb_color.rs", "rgb_color", "rgb"), ("gray_color.rs", "gray_color", "gray")):
+        rel = PIX + f
+        for a in C._invocations(C._read(repo, rel), macro, rel):
+            m = re.match(rf"({C.IDENT})\s*,\s*({C.IDENT})\s*,", a)
+            if not m:
+                raise Err(f"{rel}: cannot read {macro}!({a})")
+            out.append(dict(name=m.group(1), kind=kind, raw=m.group(2)))
+    rel = PIX + "binary_color.rs"
+    m = re.search(rf"impl\s+PixelColor\s+for\s+BinaryColor\s*\{{\s*type\s+Raw\s*=\s*({C.IDENT})\s*;", C._read(repo, rel))
+    if not m:
+        raise Err(f"{rel}: `impl PixelColor for BinaryColor {{ type Raw = ..; }}` not found")
+    out.append(dict(name="BinaryColor", kind="binary", raw=m.group(1)))
+    names = [c["name"] for c in out]
+    if len(set(names)) != len(names) or sum(1 for c in out if c["kind"] == "rgb") == 0 or sum(1 for c in out if c["kind"] == "gray") == 0:
+        raise Err("colour type names are not unique, or no RGB / gray type was found")
+    return out
+
+
+def check_invocation_classes(repo, colors):
+    """every type argument of every invocation of a conversion macro is of a class the binding in MACROS allows for the
+    parameter on that side of `=>` (so the symbolic translation covers every invocation)"""
+    kind_of = {c["name"]: c["kind"] for c in colors}
+    rel = PIX + "conversion.rs"
+    src = C._read(repo, rel)
+    for mn in CONV_MACROS:
+        m = MACROS[mn]
+        sides = [re.findall(r"\$ (\w+) : ident", part) for part in m["matcher"].split("=>")]
+        invs = C._invocations(src, mn, rel)
+        if not invs:
+            raise Err(f"{rel}: no invocation of {mn}! found")
+        for a in invs:
+            parts = a.split("=>")
+            if len(parts) != len(sides):
+                raise Err(f"{rel}: {mn}!({a}): unexpected shape")
+            for part, ps in zip(parts, sides):
+                if len(ps) != 1:
+                    raise Err(f"{rel}: {mn}!: matcher side with {len(ps)} type parameters")
+                allowed = m["bind"][ps[0]][1]
+                allowed = allowed if isinstance(allowed, list) else [allowed]
+                for n in [x.strip() for x in part.split(",") if x.strip()]:
+                    if kind_of.get(n) not in allowed:
+                        raise Err(f"{rel}: {mn}!({a}): `{n}` is not a {' / '.join(allowed)} colour type (parameter ${ps[0]})")
+
+
 def translate(repo):
-    colors, raws, raw_order, _, _ = C.parse_colors(repo)
-    C.parse_convs(repo, colors)        # raises when an invocation's types are not of the classes MACROS assumes
+    colors = color_classes(repo)
+    check_invocation_classes(repo, colors)
     units = load_units(repo)
     tr = Tr(units, colors)
     enum = units["binary"].prog.enums.get("BinaryColor")
